@@ -95,6 +95,19 @@ def gen_case(rng, cid, table, force=None):
     ops.append("cfg.end")
     body = []
     held = {}
+    # directed opening: a MIDI-input note exactly on the pitch of a lit key (any channel incl. 16), frame, panic, frame
+    dm = int(ops[2].split()[5]) if False else None
+    defmap = int([o for o in ops if o.startswith("cfg.begin")][0].split()[5])
+    off0 = defs + 12 * defo
+    lit = [c for c in keymaps[defmap] if c in led_codes and 0 <= keymaps[defmap][c] + off0 <= 127] if defmap < len(keymaps) else []
+    if lit and rng.random() < 0.5:
+        c = rng.choice(lit)
+        chx = rng.choice([0, defch - 1, 15, 15, rng.randrange(16)])
+        body += ["midiin %02x%02x40" % (0x90 | chx, keymaps[defmap][c] + off0), "led.state", "led.frame"]
+        if "panic" in act_keys and rng.random() < 0.7:
+            body += ["key - %d 1" % act_keys["panic"], "key - %d 0" % act_keys["panic"], "led.state", "led.frame"]
+        elif rng.random() < 0.5:
+            body += ["midiin %02x%02x00" % (0x90 | chx, keymaps[defmap][c] + off0), "led.state", "led.frame"]
     n_ops = rng.randrange(3, 14)
     for _ in range(n_ops):
         r = rng.random()
